@@ -69,7 +69,7 @@ class Result:
 
 
 def run(text, opts=(), *, input_name="in.pdb", files=None, out_name="out.pqr",
-        pre_existing=None, want_text=True):
+        pre_existing=None, want_text=True, old_mtime=None):
     """Run pdb2pqr on `text` with option list `opts`.
 
     files: {name: text} extra files written next to the input; occurrences of
@@ -96,6 +96,8 @@ def run(text, opts=(), *, input_name="in.pdb", files=None, out_name="out.pqr",
         out.unlink()
     if pre_existing is not None:
         out.write_bytes(pre_existing)
+        if old_mtime is not None:
+            os.utime(out, (old_mtime, old_mtime))
     argv = []
     for o in opts:
         o = str(o)
